@@ -37,7 +37,7 @@ BOUNDS = {
     "quick": dict(gwy_shapes=60, extreme_per_pair=1, neighbours=1, maxlen=6, maxtok=3, simtok=6, nsim=500, maxlines=4, maxbad=2, workers=4, tlc_parallel=4,
                   n_mut_frames=40, n_rand_mut=20, n_dbl_mut=10, schema_rand=1, schema_profiles=1,
                   file_reps=1, mqtt_shapes=300, deep_pairs=2, conc_per_beh=1),
-    "thorough": dict(gwy_shapes=1500, extreme_per_pair=12, neighbours=12, maxlen=8, maxtok=4, simtok=7, nsim=5000, maxlines=5, maxbad=2, workers=8, tlc_parallel=2,
+    "thorough": dict(gwy_shapes=500, extreme_per_pair=12, neighbours=12, maxlen=8, maxtok=4, simtok=7, nsim=5000, maxlines=5, maxbad=2, workers=8, tlc_parallel=2,
                      n_mut_frames=900, n_rand_mut=60, n_dbl_mut=40, schema_rand=6, schema_profiles=3,
                      file_reps=2, mqtt_shapes=3000, deep_pairs=12, conc_per_beh=1),
 }
